@@ -56,6 +56,19 @@ def default_value(e, ty_hint, name):
 def import_by_contract(e, adf):
     """what serde_json::from_str(serde_json::to_string(adf)) yields according to the derive attributes"""
     bdd = adf.f[e.field('Adf', 'bdd')]
+    nb = import_bdd_by_contract(e, bdd)
+    ca = serde_contract(e, 'lib/src/adf.rs', 'Adf')
+    af = []
+    for name in e.structs['Adf']:
+        rule = ca[name]
+        if name == 'bdd': af.append(nb)
+        elif rule[0] == 'copy': af.append(clone_val(e, adf.f[e.field('Adf', name)]) if adf.f[e.field('Adf', name)] is not None else None)
+        elif name == 'rng': af.append(new_rng_cell())
+        else: raise Unsupported('Adf field rule %s for %s' % (rule, name))
+    return Struct(af), nb
+
+
+def import_bdd_by_contract(e, bdd):
     cb = serde_contract(e, 'lib/src/obdd.rs', 'Bdd')
     fields = []
     for name in e.structs['Bdd']:
@@ -73,16 +86,7 @@ def import_by_contract(e, adf):
             fields.append(m)
         elif rule[0] == 'default': fields.append(default_value(e, None, name))
         else: fields.append(e.call('obdd::' + rule[1], []))
-    nb = Struct(fields)
-    ca = serde_contract(e, 'lib/src/adf.rs', 'Adf')
-    af = []
-    for name in e.structs['Adf']:
-        rule = ca[name]
-        if name == 'bdd': af.append(nb)
-        elif rule[0] == 'copy': af.append(clone_val(e, adf.f[e.field('Adf', name)]) if adf.f[e.field('Adf', name)] is not None else None)
-        elif name == 'rng': af.append(new_rng_cell())
-        else: raise Unsupported('Adf field rule %s for %s' % (rule, name))
-    return Struct(af), nb
+    return Struct(fields)
 
 
 def rebuild_nodelist(e, adf):
@@ -139,11 +143,11 @@ def persist_job(e, p):
     def toh(h):
         if h not in memo: memo[h] = table(e, nodes, h, n)
         return memo[h]
-    for pr in c11.audit_memo(e, nb, n, toh):
-        m = sat_model(e, True); report(e, 'import-state', what=pr, case=case(m))
+    for pr, probe in c11.audit_memo(e, nb, n, toh):
+        m = sat_model(e, True); report(e, 'import-state', what=pr, case=case(m), probe=probe)
     st = Store(e, n, check=False); st.bdd = nb; st.r = Ref([nb], 0); st.script = []
     viol_before = len(e.path_violations)
-    st.violation = lambda kind, what, model, **kw: report(e, 'import-state', what=what, case=case(sat_model(e, True)))
+    st.violation = lambda kind, what, model, **kw: report(e, 'import-state', what=what, case=case(sat_model(e, True)), probe={'op': 'renode'})
     st.check_invariants()
     adf2, ra2, bdd2 = A.make_adf(e, tabs, n)
     fresh = final_call(e, final, adf2, ra2, bdd2, n)
@@ -169,6 +173,8 @@ def replay(ctx, v):
     probs = judge(out)
     if probs: return 'reproduced', {'native_output': out, 'problems': probs}
     if v['kind'] == 'import-state':
+        out = ctx.native().call(native_cmd(dict(v['case'], probe=v.get('probe'))), timeout=30)
+        if out.get('probe_wrong'): return 'reproduced', {'native_output': out, 'problems': ['after the round trip, %s answers wrongly: %s' % (v.get('probe'), out.get('probe_detail'))]}
         for fin in FINALS:
             out = ctx.native().call(native_cmd(dict(v['case'], final=fin)), timeout=30)
             probs = judge(out)
